@@ -253,6 +253,27 @@ PROPS = {
 }
 
 
+PROPS["C13"] = dict(
+    level="exploration",
+    technique="schedule exploration with harness-owned interleavings (API-call level and re-entrant sink) under rapid, plus free-running goroutines under the race detector; oracle = byte equality with each instance's solo run",
+    level_text="Exploration over schedules and process histories: 2..5 independent writer/reader instances with drawn histories are interleaved (a) at API-call granularity following a drawn schedule and "
+               "(b) by running other instances' complete histories inside one writer's sink Write call at drawn write indices, in both cases after polluting both buffer pools with dirty buffers; "
+               "(c) 48 instances run on free goroutines in a -race build. Every instance's output must equal its solo reference; two solo runs must be identical; the race detector must stay silent.",
+    level_note="Trusted: Go's race detector; the harness schedules. Limits: preemption points inside an API call other than sink writes are only sampled by engine (c); sync.Pool's per-P caches make "
+               "cross-goroutine buffer hand-over rare, which is why engines (a)/(b) run everything on one goroutine where pool reuse is certain.",
+    fixtures=["tiny", "flat24", "nest"],
+    gen_anchored=True,
+    race_bin=True,
+    stages=[dict(test="TestC13", kind="rapid", quick=1600, thorough=32000),
+            dict(test="TestC13Race", kind="enum", quick=2, thorough=24, bin="props.race.test", shards=4, timeout_thorough=3600)],
+    replay="TestReplayC13",
+    rule="rapid: 2..5 instances (writer or reader, fixture tiny/flat24/nest, <= 8 records, <= 2 batches, any page size/codec), pool pollution with 0..4 junk sizes x 1..6 buffers; engine 'api': a drawn "
+         "cyclic schedule picks which live instance performs its next API call (NewParquetWriter/Add/Write/Close, NewParquetReader/Next+Scan); engine 'reentrant': instances 1.. run to completion inside "
+         "instance 0's sink.Write at drawn write indices before the bytes are copied. Stage 2 (race build): rounds of 48 instances x 3 repetitions on free goroutines (GOMAXPROCS=16). Oracle: output bytes / "
+         "rows+error of every instance equal its solo run; solo runs repeat identically; no race report. Non-trivial: engine api with >= 2 instances alive at once, engine reentrant with >= 1 nested history "
+         "executed inside a sink write, every goroutine instance; distinct by case hash.",
+)
+
 import labprops  # noqa: E402  (registers C05, C14, C15 and the lab stage of C03)
 labprops.register(PROPS)
 
@@ -298,6 +319,10 @@ def prepare(D, pid, cfg, W, race=False, tier="quick", replay=None):
         pkgs.extend(extra or [])
     W.write_imports(pkgs)
     ok, log = W.build_tests(race=race)
+    if ok and cfg.get("race_bin"):
+        ok2, log2 = W.build_tests(race=True, name="props.race.test")
+        if not ok2:
+            raise D.Infra("race-instrumented test binary does not build:\n" + log2[-3000:])
     if not ok:
         if re.search(r"fixtures/\w+/parquet\.go", log) and cfg.get("gen_anchored"):
             msg = json.dumps({"property": pid, "key": pid + "/compile-error/fixture", "msg": log[-6000:]}, indent=1)
@@ -487,7 +512,11 @@ def _run(D, pid, cfg, tier, seed, replay, W, t0):
                     requested[st["test"]] = requested.get(st["test"], 0) + per
                 for cl in re.findall(r"^(C\d\d)-SHAPE (\S+) (\S+) (\S+) :: (.*)$", out, re.M):
                     catalogue.append(cl)
-                if rc != 0:
+                if rc != 0 and "WARNING: DATA RACE" in out:
+                    i0 = out.index("WARNING: DATA RACE")
+                    violations.append(save_failure(pid, json.dumps({"property": pid, "key": pid + "/data-race", "msg": out[i0:i0 + 6000]}, indent=1)))
+                    print(out[i0:i0 + 1500])
+                elif rc != 0:
                     ff = os.path.join(faildir, "%s-%d_%d.json" % (pid, si, sh))
                     if os.path.exists(ff):
                         content = open(ff).read()
